@@ -264,11 +264,9 @@ fn rotate(
     #[cfg(feature = "verif_hooks")]
     crate::verif_hooks::rotate_point(u32::MAX)?;
 
-    compression.compress(&file, &dst_0).map_err(|e| {
-        println!("err compressing: {:?}, dst: {:?}", file, dst_0);
-        e
-    })?;
-    Ok(())
+    // The caller reports the error. Printing it here as well made a failed roll panic
+    // when stdout could not be written to (closed pipe, full device).
+    compression.compress(&file, &dst_0)
 }
 
 /// A builder for the `FixedWindowRoller`.
